@@ -168,6 +168,60 @@ def one(conform, provided, hooks, alt, custom, where='class', custom_where='own'
     return []
 
 
+def sequences():
+    """adaptation must not depend on earlier adaptations through the same interface: objects of ONE class, some without
+    __conform__, some that acquire one later (instance attribute, __getattr__ switched on, class attribute added)"""
+    bad = []
+    for how in ('instance', 'class-later', 'getattr-switch', 'deleted-later'):
+        class IF(Interface):
+            pass
+        calls = []
+
+        def conform(iface, calls=calls):
+            calls.append('conform')
+            return 'conform-value'
+
+        class O:
+            enabled = False
+
+            def __getattr__(self, name):
+                if name == '__conform__' and how == 'getattr-switch' and O.enabled:
+                    return conform
+                raise AttributeError(name)
+        a, b = O(), O()
+        adapter_hooks[:] = []
+        steps = []
+        try:
+            if how == 'deleted-later':
+                O.__conform__ = lambda self, iface: conform(iface)
+                steps.append(('first has __conform__', IF(a, 'ALT'), 'conform-value'))
+                del O.__conform__
+                steps.append(('class attribute deleted', IF(b, 'ALT'), 'ALT'))
+                steps.append(('first again', IF(a, 'ALT'), 'ALT'))
+            else:
+                steps.append(('no __conform__ yet', IF(a, 'ALT'), 'ALT'))
+                steps.append(('again', IF(a, 'ALT'), 'ALT'))
+                if how == 'instance':
+                    b.__conform__ = conform
+                elif how == 'class-later':
+                    O.__conform__ = lambda self, iface: conform(iface)
+                else:
+                    O.enabled = True
+                steps.append(('same class, now with __conform__ (%s)' % how, IF(b, 'ALT'), 'conform-value'))
+                steps.append(('and again', IF(b, 'ALT'), 'conform-value'))
+                if how == 'instance':
+                    steps.append(('the first object still has none', IF(a, 'ALT'), 'ALT'))
+        except Exception as e:
+            bad.append(('sequence', 'adaptation sequence (%s) raised %r after %r' % (how, e, [s_[0] for s_ in steps])))
+            continue
+        for what, got, exp in steps:
+            if got != exp:
+                bad.append(('sequence', 'adaptation sequence (%s), step %r: result %r, the statement gives %r (earlier steps: %r)' % (
+                    how, what, got, exp, [s_[0] for s_ in steps[:steps.index((what, got, exp))]])))
+                break
+    return bad
+
+
 def registry_hook():
     bad = []
 
@@ -195,14 +249,14 @@ def registry_hook():
 
 
 def replay(*args):
-    bad = one(*args) if args else registry_hook()
+    bad = (sequences() if args == ('sequences',) else one(*args)) if args else registry_hook()
     for sig, what in bad:
         print('violated:', sig, what)
     sys.exit(1 if bad else 0)
 
 
 def run(ctx):
-    ctx.rule = ('full product: __conform__ in %r x provided x hook lists of length <=2 over %r x alternate x custom __adapt__ in %r; '
+    ctx.rule = ('adaptation sequences through one interface over objects of one class that acquire/lose __conform__ between calls; full product: __conform__ in %r x provided x hook lists of length <=2 over %r x alternate x custom __adapt__ in %r; '
                 'custom __adapt__ defined on the interface itself or inherited from a base interface (with/without other interface methods); __conform__ found on the class, in the instance dictionary, in a slot, through __getattr__ or on a base class; '
                 'result/exception and the exact sequence of executed steps compared with the decision list of the statement; '
                 'distinct = points of the product' % (CONFORM, HOOK, CUSTOM))
@@ -232,6 +286,9 @@ def run(ctx):
         for sig, what in one(*point):
             ctx.violation(sig + repr(point), what, 'from falsify.C14 import replay\nreplay(*%r)\n' % (point,))
     ctx.sample({'conform': 'none', 'provided': False, 'hooks': ['none', 'raises'], 'alternate': True, 'custom': 'no'})
+    ctx.case('sequences')
+    for sig, what in sequences():
+        ctx.violation(sig, what, 'from falsify.C14 import replay\nreplay("sequences")\n')
     ctx.case('registry-hook')
     for sig, what in registry_hook():
         ctx.violation(sig, what, 'from falsify.C14 import replay\nreplay()\n')
